@@ -65,6 +65,9 @@ fn log_packet(kind: &str, ep: &str, sender: &str, conn: i64, packet: &Packet, pa
     let pn = packet.number.as_u64();
     emit(json!({"ev": format!("{kind}p"), "ep": ep, "conn": conn, "sp": sp, "pn": pn, "t": ts_us(packet.timestamp), "len": len, "hash": hash,
                 "n": d.frames.len(), "el": d.eliciting, "cc": d.cc, "bad": d.error}));
+    if kind == "tx" && sp == "a" && conn == 0 {
+        crate::common::LAST_TX_PN.with(|c| { let mut v = c.get(); let i = crate::common::side(ep); if v[i].is_none_or(|x| pn > x) { v[i] = Some(pn); c.set(v); } });
+    }
     for mut f in d.frames {
         if kind == "tx" && f["ty"] == "new_cid" && conn == 0 {
             let seq = f["seq"].as_u64().unwrap_or(0);
